@@ -49,9 +49,11 @@ def _init_worker(check_id):
         _MOD.init_worker()
 
 
-def run_one(mod, payload, limit=CASE_LIMIT_S, fn="run_case"):
+def run_one(mod, payload, limit=None, fn="run_case"):
     """Execute one case under the watchdog; never raises."""
     from .gen import CaseTimeout
+    if limit is None:
+        limit = getattr(mod, "CASE_LIMIT", CASE_LIMIT_S)
     t0 = time.time()
     try:
         signal.setitimer(signal.ITIMER_REAL, limit)
@@ -128,7 +130,7 @@ def replay_file(path, as_json=False):
         mod.init_worker()
     runs = []
     for _ in range(2):
-        res = run_one(mod, rec["payload"], limit=CASE_LIMIT_S * 10, fn=rec.get("fn", "run_case"))
+        res = run_one(mod, rec["payload"], limit=getattr(mod, "CASE_LIMIT", CASE_LIMIT_S) * 10, fn=rec.get("fn", "run_case"))
         runs.append(sorted({signature(prop, v) for v in res["violations"]})
                     + (["<timeout>"] if res.get("timeout") else [])
                     + (["<harness_error>"] if res.get("harness_error") else []))
@@ -155,7 +157,7 @@ def _confirm(path):
     env["SPECMC_NO_REEXEC"] = "1"
     try:
         r = subprocess.run([sys.executable, "-m", "specmc", "replay", path, "--json"], cwd=ROOT, env=env,
-                           capture_output=True, text=True, timeout=CASE_LIMIT_S * 25)
+                           capture_output=True, text=True, timeout=max(CASE_LIMIT_S * 25, 1800))
         line = [x for x in r.stdout.splitlines() if x.startswith("{")][-1]
         return json.loads(line)
     except Exception as exc:  # noqa: BLE001
